@@ -12,6 +12,7 @@ CONSTANTS
   Aborts = TRUE
   SendLast = FALSE
   Record = FALSE
+  OnlyBad = FALSE
 INIT Init
 NEXT Next
 INVARIANT Causal
